@@ -78,7 +78,7 @@ def build_access(rng, val, ops_used, depth=0):
                     break
             if sub is None:
                 return None, None
-        op = str(rng.choice(["idx", "negidx", "slice", "slice_step", "iter", "unpack", "extend_right", "extend_left", "ctor_tuple", "ctor_list", "len_guard", "contains", "nested_slice", "reversed", "extend_left_traced", "extend_right_traced", "extend_left_traced3", "ctor_tuple3", "extend_right_empty", "extend_left_empty", "extend_empty_slice"]))
+        op = str(rng.choice(["idx", "negidx", "slice", "slice_step", "iter", "unpack", "extend_right", "extend_left", "ctor_tuple", "ctor_list", "len_guard", "contains", "nested_slice", "reversed", "extend_left_traced", "extend_right_traced", "extend_left_traced3", "ctor_tuple3", "extend_right_empty", "extend_left_empty", "extend_empty_slice", "star_args", "zip_pairs", "tuple_conv", "list_conv", "reversed_builtin", "index_method", "sum_pairs"]))
         ops_used.append(op)
         extra = 0.77
         if op == "idx":
@@ -157,6 +157,20 @@ def build_access(rng, val, ops_used, depth=0):
                 t = ab.list([1.0, c[i]])
                 return t[1] if _is_traced(c) else c[i]
 
+        elif op == "star_args":
+            f = lambda c: (lambda *a: a[i])(*c)
+        elif op == "zip_pairs":
+            f = lambda c: [p for p, q in zip(c, range(n))][i]
+        elif op == "tuple_conv":
+            f = lambda c: tuple(c)[i]
+        elif op == "list_conv":
+            f = lambda c: list(c)[i - n]
+        elif op == "reversed_builtin":
+            f = lambda c: list(reversed(c))[n - 1 - i]
+        elif op == "index_method":
+            f = lambda c: c[list(range(n)).index(i)] if len(list(c)) == n else None
+        elif op == "sum_pairs":
+            f = lambda c: [e for k, e in enumerate(c) if k == i][0]
         elif op == "len_guard":
             f = lambda c: c[i] if len(c) == n else None
         else:
@@ -174,11 +188,31 @@ def build_access(rng, val, ops_used, depth=0):
             break
     else:
         return None, None
-    op = str(rng.choice(["key", "get", "get_default", "items", "values", "keys_iter", "iter", "ctor_dict", "len_in", "get_default_is_leaf", "values_twice", "items_twice", "keys_twice", "items_pos", "keys_pos", "iter_pos", "get_missing_traced_default"]))
+    op = str(rng.choice(["key", "get", "get_default", "items", "values", "keys_iter", "iter", "ctor_dict", "len_in", "get_default_is_leaf", "values_twice", "items_twice", "keys_twice", "items_pos", "keys_pos", "iter_pos", "get_missing_traced_default", "dict_conv", "pop_copy", "update_copy", "kwargs_unpack", "comprehension", "setdefault_copy", "fromkeys"]))
     ops_used.append("d:" + op)
     pos = keys.index(key)
     if op == "key":
         f = lambda c: c[key]
+    elif op == "dict_conv":
+        f = lambda c: dict(c)[key]
+    elif op == "pop_copy":
+        f = lambda c: dict(c).pop(key)
+    elif op == "update_copy":
+
+        def f(c):
+            d2 = {}
+            d2.update(c)
+            d2.update({"__new__": 1.0})
+            return d2[key]
+
+    elif op == "kwargs_unpack":
+        f = (lambda c: (lambda **kw: kw[key])(**c)) if all(isinstance(k_, str) for k_ in keys) else (lambda c: c[key])
+    elif op == "comprehension":
+        f = lambda c: {k_: v_ for k_, v_ in c.items()}[key]
+    elif op == "setdefault_copy":
+        f = lambda c: dict(c).setdefault(key, 3.0)
+    elif op == "fromkeys":
+        f = lambda c: dict.fromkeys(c, c[key])[keys[0]]
     elif op == "get_default_is_leaf":
         # the default handed to get() is the very object stored under the key (e.g. initial parameters)
         orig = val[key]
